@@ -60,6 +60,8 @@ def cases(tier, seed):
         out.append(dict(D=D, Dz=Dz, dt=dt, dxy=dxy, steps=b["steps"], particles=b["particles"]))
     for D, dt, sg in itertools.product([1e-2, 1.0, 100.0], [60, 3600], [None, [1, 7, 3, 8], [4, 10, 1, 6], [2, 9, 2, 7]]):
         out.append(dict(mode="roms", D=D, dt=dt, subgrid=sg))
+    for sg in (None, [2, 9, 2, 7]):  # the real ROMS metric when dx is exactly constant and only dy varies
+        out.append(dict(mode="roms", D=1.0, dt=60, subgrid=sg, dxconst=True))
     return out
 
 
@@ -175,6 +177,8 @@ def run_roms(case):
 
     jj, ii = np.meshgrid(np.arange(9), np.arange(11), indexing="ij")
     dxs = 400.0 * (1.0 + 0.25 * (jj % 3) + 0.0 * ii)
+    if case.get("dxconst"):
+        dxs = np.full(jj.shape, 400.0)
     dys = 300.0 * (1.0 + 0.5 * (ii % 2) + 0.0 * jj)  # pm != pn: the spacing along Y is another one
     w = world.World(imax=11, jmax=9, N=2, h=200.0, dx=dxs, dy=dys)
     d = util.scratch("c11")
